@@ -800,3 +800,39 @@ def build_jobs(prop, tier):
     elif prop == "C09":
         J = [mc_readera(tier)] + J
     return J
+
+
+class ApalacheJob:
+    """unbounded argument for C16: the data-set counting invariant of ParallelCount is inductive for every
+    queue length (two Apalache queries: Init => IndInv, IndInv /\\ Next => IndInv' /\\ consequences)"""
+    name = "apalache-parallelcount"
+
+    def run(self, wd):
+        t0 = time.time()
+        ok = 0
+        outs = []
+        for args in (["--cinit=ConstInit", "--inv=IndInv", "--length=0"], ["--cinit=ConstInit", "--init=IndInit", "--inv=Safety", "--length=1"]):
+            try:
+                p = subprocess.run(["apalache-mc", "check", "--out-dir=" + os.path.join(wd, "apalache-out")] + args + ["ParallelCount.tla"], cwd=vlib.SPEC,
+                                   stdout=subprocess.PIPE, stderr=subprocess.STDOUT, text=True, timeout=600)
+                outs.append(p.stdout[-400:])
+                if "EXITCODE: OK" in p.stdout:
+                    ok += 1
+            except subprocess.TimeoutExpired:
+                outs.append("timeout")
+        mism = []
+        if ok < 2 and not any(o == "timeout" for o in outs):
+            mism.append({"props": ["C16", "C08"], "why": ["counting_invariant_not_inductive"], "kind": "apalache", "case": {"output": outs}, "fmt": None, "job": self.name})
+        log("[apalache] ParallelCount: %d of 2 obligations discharged in %.1fs" % (ok, time.time() - t0))
+        return {"name": self.name, "kind": "proof", "mismatches": mism, "states": 0, "transitions": 0, "traces": 0, "samples": [
+            {"apalache_obligations": ["Init => IndInv", "IndInv /\\ Next => (IndInv /\\ Bounded /\\ RecycleNeverBlocks)'"], "discharged": ok}], "wall": time.time() - t0}
+
+
+_old_build_jobs6 = build_jobs
+
+
+def build_jobs(prop, tier):
+    J = _old_build_jobs6(prop, tier)
+    if prop == "C16":
+        J = [ApalacheJob()] + J
+    return J
